@@ -138,4 +138,7 @@ def check(world, tier):
             for f in cl.findings:
                 c.ob(False, "via " + f.key, f.msg, f.site)
             c.ob(not cl.findings, "accept-only-next (C02.a)", "", sample={"C02.a obligations": cl.obligations, "discharged": cl.discharged})
+    # the wire decoder accepts every block number (0 after the wrap)
+    from . import C11
+    import_clause(world, tier, a, C11, "C11.c", ("block-number-",), "decoder accepts every 16-bit block number")
     return rep
